@@ -71,7 +71,8 @@ def check(ctx, case):
 			real = str(r.dtype.itemsize) if r.dtype.kind == 'u' else 'bad'
 		except ValueError:
 			real = '~'
-		return [f'c02.cast {dt.kind} {dt.itemsize} {real}'], []
+		native = dt.isnative
+		return [f'c02.cast {dt.kind} {dt.itemsize} {"1" if native else "0"} {real}'], []
 	raise ValueError(kind)
 
 
@@ -165,7 +166,7 @@ def run(ctx):
 	                  (2 ** 24 - 1, 2 ** 24 - 1, 2 ** 24 - 1), (12345678, 4431537, 1234567)]:
 		sub({'kind': 'sizes', 'N': N, 'M': M, 'I': I}, 'sizes-below-2^24', True)
 	# dtype table
-	for dt in ['u1', 'u2', 'u4', 'u8', 'i1', 'i2', 'i4', 'i8', 'f4', 'f8', 'b1', 'c8']:
+	for dt in ['u1', 'u2', 'u4', 'u8', 'i1', 'i2', 'i4', 'i8', 'f4', 'f8', 'b1', 'c8', '>u2', '>u4', '>u8', '>i2', '>i4', '>i8', '<i4', '<u8', '=i2', 'U1', 'S2', 'O', 'M8[s]']:
 		sub({'kind': 'cast', 'dt': dt}, 'cast')
 	# exhaustive subset pairs over a 6-element universe (values spread to the top of u2)
 	univ = [0, 1, 7, 300, 65534, 65535]
